@@ -550,3 +550,73 @@ func SilentSkip(body, head *ssa.BasicBlock, sink func(ssa.Instruction) bool, all
 	r := walk(body)
 	return r, last
 }
+
+// CheckedOnPaths reports whether every path from call c to instruction x takes
+// the "error is nil" edge of a test of c's error: x cannot be reached from c
+// when those edges are removed. Unlike CheckedBefore it does not require c to
+// dominate x (c may sit on one arm of an earlier branch).
+func CheckedOnPaths(c *ssa.Call, x ssa.Instruction) bool {
+	if c.Parent() != x.Parent() {
+		return false
+	}
+	errv := ErrorResult(c)
+	if errv == nil {
+		return false
+	}
+	al := valueAliases(errv)
+	blocked := map[Edge]bool{}
+	fn := c.Parent()
+	for _, b := range fn.Blocks {
+		if len(b.Instrs) == 0 || len(b.Succs) != 2 {
+			continue
+		}
+		iff, ok := b.Instrs[len(b.Instrs)-1].(*ssa.If)
+		if !ok {
+			continue
+		}
+		for _, br := range []bool{true, false} {
+			for a := range al {
+				if isNil, ok := ErrNilFact(Guard{iff, br}, a); ok && isNil {
+					k := 1
+					if br {
+						k = 0
+					}
+					blocked[Edge{b.Index, b.Succs[k].Index}] = true
+				}
+			}
+		}
+	}
+	if len(blocked) == 0 {
+		return false
+	}
+	// reachability from c to x with the nil-edges removed
+	seen := make([]bool, len(fn.Blocks))
+	var stack []*ssa.BasicBlock
+	cb := c.Block()
+	// within c's own block after c
+	for i := InstrIndex(c) + 1; i < len(cb.Instrs); i++ {
+		if cb.Instrs[i] == x {
+			return false
+		}
+	}
+	for _, s := range cb.Succs {
+		if !blocked[Edge{cb.Index, s.Index}] && !seen[s.Index] {
+			seen[s.Index] = true
+			stack = append(stack, s)
+		}
+	}
+	for len(stack) > 0 {
+		b := stack[len(stack)-1]
+		stack = stack[:len(stack)-1]
+		if b == x.Block() {
+			return false
+		}
+		for _, s := range b.Succs {
+			if !blocked[Edge{b.Index, s.Index}] && !seen[s.Index] {
+				seen[s.Index] = true
+				stack = append(stack, s)
+			}
+		}
+	}
+	return Reaches(c, x)
+}
